@@ -81,11 +81,19 @@ Definition y_outcomes (s : scen) : list (bool * list nat * nat) :=
       map (finish post order 400)
           (cands (40 * tb + 300) (run F fresh (pre ++ session p)) t0 tb blocked)
   | SExpired p =>
-      (* the race in EvalWithContext: stop() before Execute refreshes the root frame (everything runs),
-         or after it (nothing runs) *)
+      (* the race in EvalWithContext: stop() may come before Execute refreshes the root frame
+         (everything runs), or at any moment after it and before the first operation has been
+         executed: before the phases start (main still gets the new generation and runs), or after
+         main's frame was created and before its first gate check (nothing runs), or when the first
+         operation is already in flight *)
       let s1 := run F fresh [ABegin; AStop] in
-      let s1' := run F fresh [ABegin; AExecute p; AStop] in
-      [outcome s1 (settle (do_action F s1 (AExecute p)) [0] 400); outcome s1' (settle s1' [0] 400)]
+      let s0 := run F fresh [ABegin; AExecute p] in
+      outcome s1 (settle (do_action F s1 (AExecute p)) [0] 400)
+      :: flat_map (fun n => let st := solo F s0 0 (repeat false n) in
+                            match log st with
+                            | [] => [finish [] [0] 400 st]
+                            | _ => []
+                            end) (seq 0 16)
   | SConc _ => []
   end.
 
